@@ -16,9 +16,9 @@ From RV.Proofs Require Import BaseFacts.
 From RV.Proofs Require PfC01 PfShift PfC05 PfBits PfC06 PfConv PfC07 PfBytes PfC08 PfBaseConv
                        PfPositional PfC09 PfStr PfFloat PfC04b PfC04c
                        PfMul PfDiv PfUDiv PfC03Closed PfModular PfC10 PfC10Closed
-                       PfGcdUint PfGcd PfGcdMatrix PfC12Closed PfRedc PfC11.
-From RV.Model Require Mul UDiv Gcd Modular Redc Div.
-From RV.Run Require RunC11.
+                       PfGcdUint PfGcd PfGcdInv PfGcdMatrix PfC12Closed PfRedc PfC11 PfC03 PfPow.
+From RV.Model Require Mul UDiv Gcd Modular Redc Div Pow.
+From RV.Run Require RunC03 RunC11 RunC13.
 From RV.Run Require RunC05 RunC06 RunC08 RunC09 RunC18.
 From RV.Run Require Import RunC04a.
 Local Open Scope Z_scope.
@@ -55,6 +55,14 @@ Proof.
   - unfold wr, lift, zw. cbn [obind fst snd option_map]. now rewrite <- (uint_of_unique bits r v Hc He).
   - cbn. rewrite <- He. now apply canon_range.
 Qed.
+Lemma ok_wrf bits r v f : 0 <= bits -> canon bits r -> eval r = v -> ok bits (wrf (r, f)) (zwf v f).
+Proof.
+  intros Hb Hc He. rewrite (uint_of_unique bits r v Hc He). split; [reflexivity|]. cbn. rewrite <- He. now apply canon_range.
+Qed.
+Lemma ok_wro_some_c bits r v : 0 <= bits -> canon bits r -> eval r = v -> ok bits (wro (Some r)) (zwo (Some v)).
+Proof.
+  intros Hb Hc He. rewrite (uint_of_unique bits r v Hc He). split; [reflexivity|]. cbn. rewrite <- He. now apply canon_range.
+Qed.
 Lemma ok_wr_u bits v : 0 <= v < 2 ^ bits -> ok bits (wr (uint_of bits v)) (zw v).
 Proof. intros Hv. split; [reflexivity|exact Hv]. Qed.
 Lemma ok_wrf_u bits v f : 0 <= v < 2 ^ bits -> ok bits (wrf (uint_of bits v, f)) (zwf v f).
@@ -83,6 +91,67 @@ Proof.
 Qed.
 Lemma tl_inW imm : Forall inW imm -> Forall inW (tl imm).
 Proof. intros H. destruct imm; cbn [tl]; [constructor|now inversion H]. Qed.
+
+(* ================= the specification's modular inverse ================= *)
+Lemma inv_loop_spec a m : forall fuel r0 r1 t0 t1,
+  0 <= r1 < r0 -> r0 * r1 < 2 ^ Z.of_nat fuel ->
+  (m | t0 * a - r0) -> (m | t1 * a - r1) ->
+  fst (inv_loop fuel r0 r1 t0 t1) = Z.gcd r0 r1 /\
+  (m | snd (inv_loop fuel r0 r1 t0 t1) * a - fst (inv_loop fuel r0 r1 t0 t1)).
+Proof.
+  induction fuel as [|f IH]; intros r0 r1 t0 t1 Hr Hp H0 H1; cbn [inv_loop].
+  - change (2 ^ Z.of_nat 0) with 1 in Hp. assert (r1 = 0) by nia. subst r1. cbn [fst snd].
+    rewrite Z.gcd_0_r, Z.abs_eq by lia. auto.
+  - destruct (Z.eqb_spec r1 0) as [E|N].
+    + subst r1. cbn [fst snd]. rewrite Z.gcd_0_r, Z.abs_eq by lia. auto.
+    + pose proof (Z.mod_pos_bound r0 r1 ltac:(lia)) as Hm.
+      destruct (IH r1 (r0 mod r1) t1 (t0 - r0 / r1 * t1)) as [G D]; try lia.
+      * rewrite Nat2Z.inj_succ, Z.pow_succ_r in Hp by lia.
+        pose proof (PfGcd.euclid_halves r0 r1 ltac:(lia)). lia.
+      * exact H1.
+      * replace ((t0 - r0 / r1 * t1) * a - r0 mod r1) with ((t0 * a - r0) - (r0 / r1) * (t1 * a - r1))
+          by (rewrite Z.mod_eq by lia; ring).
+        apply Z.divide_sub_r; [exact H0 | apply Z.divide_mul_r; exact H1].
+      * split; [|exact D]. rewrite G. rewrite (Z.gcd_comm r1), Z.gcd_mod by lia. apply Z.gcd_comm.
+Qed.
+
+Lemma zmodinv_spec a m : 2 <= m -> Z.gcd a m = 1 ->
+  0 <= zmodinv a m < m /\ (a * zmodinv a m) mod m = 1.
+Proof.
+  intros Hm Hg. unfold zmodinv.
+  pose proof (Z.mod_pos_bound a m ltac:(lia)) as Ham.
+  pose proof (Z.log2_spec m ltac:(lia)) as Hl. pose proof (Z.log2_nonneg m) as Hl0.
+  destruct (inv_loop_spec a m (Z.to_nat (2 * Z.log2 m + 2)) m (a mod m) 0 1) as [G D]; try lia.
+  - rewrite Z2Nat.id by lia. replace (2 * Z.log2 m + 2) with (Z.succ (Z.log2 m) + Z.succ (Z.log2 m)) by lia.
+    rewrite Z.pow_add_r by lia. nia.
+  - exists (-1). ring.
+  - exists (a / m). rewrite Z.mod_eq by lia. ring.
+  - set (t := snd (inv_loop _ m (a mod m) 0 1)) in *.
+    rewrite G in D. rewrite (Z.gcd_comm m), Z.gcd_mod, Z.gcd_comm, Hg in D by lia.
+    split; [apply Z.mod_pos_bound; lia|].
+    rewrite Z.mul_mod_idemp_r by lia. destruct D as [k Hk].
+    replace (a * t) with (1 + k * m) by lia. rewrite Z_mod_plus_full. apply Z.mod_small. lia.
+Qed.
+
+Lemma inv_unique m a x y : 0 < m -> 0 <= x < m -> 0 <= y < m ->
+  (a * x) mod m = 1 -> (a * y) mod m = 1 -> x = y.
+Proof.
+  intros Hm Hx Hy Ex Ey.
+  assert (H1 : (x * (a * y)) mod m = x mod m).
+  { rewrite <- Z.mul_mod_idemp_r, Ey by lia. f_equal. lia. }
+  assert (H2 : (y * (a * x)) mod m = y mod m).
+  { rewrite <- Z.mul_mod_idemp_r, Ex by lia. f_equal. lia. }
+  replace (y * (a * x)) with (x * (a * y)) in H2 by ring.
+  rewrite H1 in H2. rewrite !Z.mod_small in H2 by lia. exact H2.
+Qed.
+
+Lemma inv_gcd m a x : 0 < m -> (a * x) mod m = 1 -> Z.gcd a m = 1.
+Proof.
+  intros Hm E. pose proof (Z.gcd_nonneg a m) as Hg.
+  apply Z.divide_1_r_nonneg; [exact Hg|].
+  replace 1 with (a * x - m * (a * x / m)) by (rewrite <- E, Z.mod_eq by lia; ring).
+  apply Z.divide_sub_r; apply Z.divide_mul_l; [apply Z.gcd_divide_l|apply Z.gcd_divide_r].
+Qed.
 
 (* ================= add / sub / neg ================= *)
 Section Ops.
@@ -690,10 +759,6 @@ Section Ops.
   Proof. start. now apply ok_mov_like. Qed.
 
   (* ================= opaque operations: `sem` is the specification by definition ================= *)
-  Lemma pow_mod2_pos_range x e : 0 <= pow_mod2_pos x e bits < 2 ^ bits.
-  Proof. destruct e; cbn [pow_mod2_pos]; apply modp2_range; lia. Qed.
-  Lemma pow_mod2_range x e : 0 <= pow_mod2 x e bits < 2 ^ bits.
-  Proof. unfold pow_mod2. destruct e; [apply modp2_range; lia|apply pow_mod2_pos_range|lia]. Qed.
   Lemma pow_mod_pos_range x e m : 0 < m -> 0 <= pow_mod_pos x e m < m.
   Proof. intros Hm. destruct e; cbn [pow_mod_pos]; apply Z.mod_pos_bound; lia. Qed.
   Lemma pow_mod_range x e m : 1 < m -> 0 <= pow_mod x e m < m.
@@ -749,9 +814,28 @@ Lemma ok_WrRem : ok bits (sem WrRem bits a b c imm) (zsem WrRem bits (eval a) (e
       cbn [obind snd]. apply ok_wr; auto. repeat split; auto; [rewrite Lr; apply Hc|].
       rewrite Er. pose proof (Z.mod_pos_bound (eval a) (eval b) ltac:(lia)). lia.
   Qed.
+Lemma pow_facts (Hb1 : 0 < bits) x e : 0 <= x -> 0 <= e ->
+    RunC13.powmod bits x e = x ^ e mod 2 ^ bits /\ RunC13.overflows bits x e = (2 ^ bits <=? x ^ e).
+  Proof.
+    intros Hx He. split; [apply PfPow.powmod_spec; lia|].
+    rewrite PfPow.overflows_spec by lia. destruct (Z.ltb_spec 0 bits); [reflexivity|lia].
+  Qed.
+  Lemma pow_zero_width : bits = 0 -> eval a = 0 /\ forall x e, RunC13.powmod bits x e = 0 /\ RunC13.overflows bits x e = false.
+  Proof.
+    intros E. split.
+    { assert (2 ^ bits = 1) by (rewrite E; reflexivity). lia. }
+    intros x e. rewrite E. split; [|reflexivity].
+    unfold RunC13.powmod. destruct e as [|p|p]; try reflexivity.
+    destruct p; cbn [RunC13.powmod_pos]; unfold modp2; now rewrite Z.land_0_r.
+  Qed.
+
   Lemma ok_WrPow : ok bits (sem WrPow bits a b c imm) (zsem WrPow bits (eval a) (eval b) (eval c) imm).
   Proof.
-    opaque. cbn. apply pow_mod2_range.
+    start. destruct (Z.eq_dec bits 0) as [E0|N0].
+    - destruct (pow_zero_width E0) as [Ea Z0]. unfold Pow.wrapping_pow.
+      destruct (Z.eqb_spec bits 0); [|contradiction]. cbn [obind]. rewrite (proj1 (Z0 _ _)). now apply ok_wr.
+    - destruct (PfPow.wrapping_pow_spec bits a b ltac:(lia) Ha Hc) as (r & -> & C & E). cbn [obind].
+      apply ok_wr; auto. rewrite (proj1 (pow_facts ltac:(lia) (eval a) (eval b) ltac:(lia) ltac:(lia))). exact E.
   Qed.
 Lemma ok_Gcd : ok bits (sem Gcd bits a b c imm) (zsem Gcd bits (eval a) (eval b) (eval c) imm).
   Proof.
@@ -862,6 +946,189 @@ Lemma hd_mod md : md <> [] -> Forall inW md -> hd 0 md = eval md mod B.
       rewrite PfC11.mul_redc_bad by (auto; congruence). split; [reflexivity|exact I].
   Qed.
 
+  (* ================= the remaining methods of mul.rs, div.rs, special.rs, gcd.rs, modular.rs, pow.rs ================= *)
+  Lemma ok_InvRing : ok bits (sem InvRing bits a b c imm) (zsem InvRing bits (eval a) (eval b) (eval c) imm).
+  Proof.
+    start. unfold M. pose proof (PfMul.inv_ring_spec bits a Hb0 Ha) as S.
+    destruct ((0 <? bits) && Z.odd (eval a)) eqn:E.
+    - destruct S as (x0 & -> & Cx & Ex). cbn [obind].
+      apply andb_true_iff in E. destruct E as [E _]. apply Z.ltb_lt in E.
+      assert (H2 : 2 <= 2 ^ bits) by (change 2 with (2 ^ 1) at 1; apply Z.pow_le_mono_r; lia).
+      pose proof (inv_gcd (2 ^ bits) (eval a) (eval x0) ltac:(lia) Ex) as Hg.
+      destruct (zmodinv_spec (eval a) (2 ^ bits) H2 Hg) as [Rz Ez].
+      pose proof (canon_range bits x0 Hb0 Cx) as Rx.
+      rewrite (uint_of_unique bits x0 (zmodinv (eval a) (2 ^ bits)) Cx
+                 (inv_unique (2 ^ bits) (eval a) (eval x0) (zmodinv (eval a) (2 ^ bits)) ltac:(lia) Rx Rz Ex Ez)).
+      apply ok_wro_some. exact Rz.
+    - rewrite S. cbn [obind]. apply ok_wro_none.
+  Qed.
+
+  Lemma ok_ChMul : ok bits (sem ChMul bits a b c imm) (zsem ChMul bits (eval a) (eval b) (eval c) imm).
+  Proof.
+    start. unfold Mul.checked_mul, M. pose proof (PfMul.overflowing_mul_spec bits a b Hb0 Ha Hc) as S.
+    destruct (Mul.overflowing_mul bits a b) as [r f]. destruct S as (C & E & ->).
+    destruct (Z.leb_spec (2 ^ bits) (eval a * eval b)); destruct (Z.ltb_spec (eval a * eval b) (2 ^ bits)); try lia.
+    - apply ok_wro_none.
+    - rewrite Z.mod_small in E by nia. rewrite (uint_of_unique bits r _ C E). apply ok_wro_some. nia.
+  Qed.
+  Lemma ok_SatMul : ok bits (sem SatMul bits a b c imm) (zsem SatMul bits (eval a) (eval b) (eval c) imm).
+  Proof.
+    start. unfold Mul.saturating_mul, M. pose proof (PfMul.overflowing_mul_spec bits a b Hb0 Ha Hc) as S.
+    destruct (Mul.overflowing_mul bits a b) as [r f]. destruct S as (C & E & ->).
+    destruct (Z.leb_spec (2 ^ bits) (eval a * eval b)); destruct (Z.ltb_spec (eval a * eval b) (2 ^ bits)); try lia.
+    - rewrite PfC07.uMAX_eq by auto. apply ok_wr_u. lia.
+    - rewrite Z.mod_small in E by nia. apply ok_wr; auto.
+  Qed.
+  Lemma ok_OvMul : ok bits (sem OvMul bits a b c imm) (zsem OvMul bits (eval a) (eval b) (eval c) imm).
+  Proof.
+    start. unfold M. pose proof (PfMul.overflowing_mul_spec bits a b Hb0 Ha Hc) as S.
+    destruct (Mul.overflowing_mul bits a b) as [r f]. destruct S as (C & E & ->).
+    rewrite <- modp2_spec in E by lia. rewrite (uint_of_unique bits r _ C E). apply ok_wrf_u, modp2_range. lia.
+  Qed.
+
+  Let HK := PfC03Closed.DivKernelOK_holds.
+  Let HZ := PfUDiv.DivKernelZero_holds.
+  Lemma ceil_div_range : eval b <> 0 -> 0 <= RunC03.ceil_div (eval a) (eval b) < 2 ^ bits.
+  Proof.
+    intros N. unfold RunC03.ceil_div. split; [apply Z.div_pos; lia|].
+    apply Z.le_lt_trans with (eval a); [|lia].
+    assert ((eval a + eval b - 1) / eval b < eval a + 1) by (apply Z.div_lt_upper_bound; nia). lia.
+  Qed.
+  Lemma ok_DivCeil : ok bits (sem DivCeil bits a b c imm) (zsem DivCeil bits (eval a) (eval b) (eval c) imm).
+  Proof.
+    start. destruct (Z.eqb_spec (eval b) 0) as [E0|N0].
+    - unfold UDiv.div_ceil. rewrite (PfUDiv.div_rem_zero HZ bits a b Hc E0). apply ok_panic.
+    - rewrite (PfC03.div_ceil_eq HK bits a b Hb0 Ha Hc N0). cbn [obind]. apply ok_wr_u, ceil_div_range, N0.
+  Qed.
+  Lemma ok_ChDiv : ok bits (sem ChDiv bits a b c imm) (zsem ChDiv bits (eval a) (eval b) (eval c) imm).
+  Proof.
+    start. unfold UDiv.checked_div, UDiv.op_div_, UDiv.wrapping_div. rewrite PfUDiv.is_zero_spec by auto.
+    destruct (Z.eqb_spec (eval b) 0) as [E0|N0]; [cbn [obind]; apply ok_wro_none|].
+    rewrite (PfUDiv.div_rem_eq HK bits a b Hb0 Ha Hc N0). cbn [obind fst]. apply ok_wro_some.
+    split; [apply Z.div_pos; lia|]. apply Z.le_lt_trans with (eval a); [|lia]. apply Z.div_le_upper_bound; nia.
+  Qed.
+  Lemma ok_ChRem : ok bits (sem ChRem bits a b c imm) (zsem ChRem bits (eval a) (eval b) (eval c) imm).
+  Proof.
+    start. unfold UDiv.checked_rem, UDiv.op_rem_, UDiv.wrapping_rem. rewrite PfUDiv.is_zero_spec by auto.
+    destruct (Z.eqb_spec (eval b) 0) as [E0|N0]; [cbn [obind]; apply ok_wro_none|].
+    rewrite (PfUDiv.div_rem_eq HK bits a b Hb0 Ha Hc N0). cbn [obind snd]. apply ok_wro_some.
+    pose proof (Z.mod_pos_bound (eval a) (eval b) ltac:(lia)). lia.
+  Qed.
+  Lemma next_mult_nonneg : eval b <> 0 -> 0 <= RunC03.next_mult (eval a) (eval b).
+  Proof. intros N. unfold RunC03.next_mult. pose proof (ceil_div_range N). nia. Qed.
+  Lemma ok_ChNextMul : ok bits (sem ChNextMul bits a b c imm) (zsem ChNextMul bits (eval a) (eval b) (eval c) imm).
+  Proof.
+    start. unfold M. destruct (Z.eqb_spec (eval b) 0) as [E0|N0]; cbn [orb].
+    - rewrite (PfC03.checked_nmo_zero bits a b Hb0 Hc E0). cbn [obind]. apply ok_wro_none.
+    - rewrite (PfC03.checked_nmo_eq HK bits a b Hb0 Ha Hc N0). cbn [obind]. pose proof (next_mult_nonneg N0).
+      destruct (Z.leb_spec (2 ^ bits) (RunC03.next_mult (eval a) (eval b))); [apply ok_wro_none|apply ok_wro_some; lia].
+  Qed.
+  Lemma ok_NextMul : ok bits (sem NextMul bits a b c imm) (zsem NextMul bits (eval a) (eval b) (eval c) imm).
+  Proof.
+    start. unfold M, UDiv.next_multiple_of. destruct (Z.eqb_spec (eval b) 0) as [E0|N0]; cbn [orb].
+    - rewrite (PfC03.checked_nmo_zero bits a b Hb0 Hc E0). cbn [obind]. apply ok_panic.
+    - rewrite (PfC03.checked_nmo_eq HK bits a b Hb0 Ha Hc N0). cbn [obind]. pose proof (next_mult_nonneg N0).
+      destruct (Z.leb_spec (2 ^ bits) (RunC03.next_mult (eval a) (eval b))); [apply ok_panic|apply ok_wr_u; lia].
+  Qed.
+
+  Let HKg := PfC12Closed.DivKernelOK_holds.
+  Let HL := PfGcdMatrix.LehmerStepOK_holds.
+  Lemma ok_InvMod : ok bits (sem InvMod bits a b c imm) (zsem InvMod bits (eval a) (eval b) (eval c) imm).
+  Proof.
+    start. destruct (PfGcdInv.inv_mod_spec HKg bits a b Hb0 Ha Hc) as (o & -> & S). cbn [obind].
+    destruct ((2 <=? eval b) && (Z.gcd (eval a) (eval b) =? 1)) eqn:E.
+    - destruct S as (x0 & -> & Cx & Lx & Ex).
+      apply andb_true_iff in E. destruct E as [E1 E2]. apply Z.leb_le in E1. apply Z.eqb_eq in E2.
+      destruct (zmodinv_spec (eval a) (eval b) E1 E2) as [Rz Ez].
+      pose proof (canon_range bits x0 Hb0 Cx) as Rx.
+      rewrite (uint_of_unique bits x0 (zmodinv (eval a) (eval b)) Cx
+                 (inv_unique (eval b) (eval a) (eval x0) (zmodinv (eval a) (eval b)) ltac:(lia) ltac:(lia) Rz Ex Ez)).
+      apply ok_wro_some. lia.
+    - rewrite S. apply ok_wro_none.
+  Qed.
+  Lemma ok_Lcm : ok bits (sem Lcm bits a b c imm) (zsem Lcm bits (eval a) (eval b) (eval c) imm).
+  Proof.
+    start. unfold M. rewrite (PfGcd.lcm_spec HKg HL bits a b Hb0 Ha Hc). cbn [obind]. cbv zeta.
+    destruct ((eval a =? 0) || (eval b =? 0)); [apply ok_wro_some; lia|].
+    destruct (Z.ltb_spec (eval a * eval b / Z.gcd (eval a) (eval b)) (2 ^ bits)); [|apply ok_wro_none].
+    apply ok_wro_some. split; [|assumption].
+    pose proof (Z.gcd_nonneg (eval a) (eval b)).
+    destruct (Z.eq_dec (Z.gcd (eval a) (eval b)) 0) as [G0|G0].
+    - rewrite G0, Zdiv_0_r. lia.
+    - apply Z.div_pos; [nia|lia].
+  Qed.
+  Lemma ok_GcdExt : ok bits (sem GcdExt bits a b c imm) (zsem GcdExt bits (eval a) (eval b) (eval c) imm).
+  Proof.
+    start. destruct (PfGcd.gcd_extended_spec HKg HL bits a b Hb0 Ha Hc) as ([[[g x] y] sg] & -> & -> & Cx & Cy & _).
+    cbn [obind]. rewrite (proj2 (canonb_iff bits x) Cx), (proj2 (canonb_iff bits y) Cy). cbn [andb negb b2z].
+    apply ok_wr_u. pose proof (gcd_le (eval a) (eval b)). lia.
+  Qed.
+  Lemma ok_ReduceMod : ok bits (sem ReduceMod bits a b c imm) (zsem ReduceMod bits (eval a) (eval b) (eval c) imm).
+  Proof. start. apply ok_returns. now apply PfC10Closed.reduce_mod_value_closed. Qed.
+
+  Lemma ok_SquareRedc : ok bits (sem SquareRedc bits a b c imm) (zsem SquareRedc bits (eval a) (eval b) (eval c) imm).
+  Proof.
+    start. unfold Redc.uint_square_redc, z_mul_redc. destruct (Z.eqb_spec bits 0) as [E0|N0].
+    { cbn [obind]. rewrite PfC07.uZERO_eq by lia. apply ok_wr_u. lia. }
+    assert (Hbp : 0 < bits) by lia.
+    assert (Hne : c <> []).
+    { intros E. pose proof (proj1 Hd) as Hl. rewrite E in Hl. cbn in Hl. pose proof (nlimbs_bounds bits Hbp).
+      unfold nlimbsN in Hl. lia. }
+    pose proof (proj1 Ha) as La. pose proof (proj1 Hd) as Lc.
+    rewrite <- (hd_mod c Hne Wc).
+    destruct (((imm1 imm * hd 0 c) mod B =? B - 1) && (eval a <? eval c) && (eval a <? eval c)) eqn:P.
+    - assert (P' : RunC11.pre (eval a) (eval a) (eval c) (imm1 imm) (hd 0 c) = true).
+      { unfold RunC11.pre. rewrite <- B_pow. exact P. }
+      apply PfC11.pre_true in P'. destruct P' as (Hinv & Hlta & _).
+      destruct (PfRedc.square_redc_spec a c (imm1 imm) ltac:(congruence) Wa Wc Hinv Hlta)
+        as (r & -> & Lr & Wr & Rr & Cg). cbn [obind].
+      rewrite PfC11.from_limbs_checked_ok by (auto; lia). cbn [obind].
+      assert (Cr : canon bits r) by (repeat split; auto; [congruence|lia]).
+      apply ok_wr; auto.
+      assert (Hodd : Z.odd (eval c) = true).
+      { apply odd_eval; [exact Hne|]. apply (inv_odd (imm1 imm)). exact Hinv. }
+      apply (PfRedc.redc_value (eval r) (B ^ Z.of_nat (length c)) _ (eval a * eval a) (eval c)); auto.
+      rewrite Lc, nlimbsN_Z, B_pow, <- Z.pow_mul_r by (try apply nlimbs_nonneg; lia).
+      apply redc_inverse; [lia | exact Hodd | pose proof (nlimbs_nonneg bits Hb0); lia].
+    - assert (P' : RunC11.pre (eval a) (eval a) (eval c) (imm1 imm) (hd 0 c) = false).
+      { unfold RunC11.pre. rewrite <- B_pow. exact P. }
+      rewrite PfC11.square_redc_bad by (auto; congruence). split; [reflexivity|exact I].
+  Qed.
+
+  Lemma ok_OvPow : ok bits (sem OvPow bits a b c imm) (zsem OvPow bits (eval a) (eval b) (eval c) imm).
+  Proof.
+    start. destruct (Z.eq_dec bits 0) as [E0|N0].
+    - destruct (pow_zero_width E0) as [Ea Z0]. unfold Pow.overflowing_pow.
+      destruct (Z.eqb_spec bits 0); [|contradiction]. cbn [obind].
+      destruct (Z0 (eval a) (eval b)) as [-> ->]. now apply ok_wrf.
+    - destruct (PfPow.overflowing_pow_spec bits a b ltac:(lia) Ha Hc) as (r & -> & C & E). cbn [obind].
+      destruct (pow_facts ltac:(lia) (eval a) (eval b) ltac:(lia) ltac:(lia)) as [-> ->].
+      rewrite (uint_of_unique bits r _ C E). apply ok_wrf_u, mod_range. lia.
+  Qed.
+  Lemma ok_ChPow : ok bits (sem ChPow bits a b c imm) (zsem ChPow bits (eval a) (eval b) (eval c) imm).
+  Proof.
+    start. unfold Pow.checked_pow. destruct (Z.eq_dec bits 0) as [E0|N0].
+    - destruct (pow_zero_width E0) as [Ea Z0]. unfold Pow.overflowing_pow.
+      destruct (Z.eqb_spec bits 0); [|contradiction]. cbn [obind].
+      destruct (Z0 (eval a) (eval b)) as [-> ->]. now apply ok_wro_some_c.
+    - destruct (PfPow.overflowing_pow_spec bits a b ltac:(lia) Ha Hc) as (r & -> & C & E). cbn [obind].
+      destruct (pow_facts ltac:(lia) (eval a) (eval b) ltac:(lia) ltac:(lia)) as [-> ->].
+      destruct (2 ^ bits <=? eval a ^ eval b); [apply ok_wro_none|].
+      rewrite (uint_of_unique bits r _ C E). apply ok_wro_some, mod_range. lia.
+  Qed.
+  Lemma ok_SatPow : ok bits (sem SatPow bits a b c imm) (zsem SatPow bits (eval a) (eval b) (eval c) imm).
+  Proof.
+    start. unfold Pow.saturating_pow, M. destruct (Z.eq_dec bits 0) as [E0|N0].
+    - destruct (pow_zero_width E0) as [Ea Z0]. unfold Pow.overflowing_pow.
+      destruct (Z.eqb_spec bits 0); [|contradiction]. cbn [obind].
+      destruct (Z0 (eval a) (eval b)) as [-> ->]. now apply ok_wr.
+    - destruct (PfPow.overflowing_pow_spec bits a b ltac:(lia) Ha Hc) as (r & -> & C & E). cbn [obind].
+      destruct (pow_facts ltac:(lia) (eval a) (eval b) ltac:(lia) ltac:(lia)) as [-> ->].
+      destruct (2 ^ bits <=? eval a ^ eval b).
+      + rewrite PfC07.uMAX_eq by auto. apply ok_wr_u. lia.
+      + rewrite (uint_of_unique bits r _ C E). apply ok_wr_u, mod_range. lia.
+  Qed.
+
   Theorem sem_ok o : ok bits (sem o bits a b c imm) (zsem o bits (eval a) (eval b) (eval c) imm).
   Proof.
     destruct o;
@@ -882,7 +1149,11 @@ Lemma hd_mod md : md <> [] -> Forall inW md -> hd 0 md = eval md mod B.
             | exact ok_TryFromF32 | exact ok_WrapFromF32 | exact ok_SatFromF32
             | exact ok_CZero | exact ok_COne | exact ok_CMin | exact ok_CMax | exact ok_Mov
             | exact ok_WrMul | exact ok_WrDiv | exact ok_WrRem | exact ok_WrPow | exact ok_Gcd
-            | exact ok_AddMod | exact ok_MulMod | exact ok_PowMod | exact ok_Root | exact ok_MulRedc ].
+            | exact ok_AddMod | exact ok_MulMod | exact ok_PowMod | exact ok_Root | exact ok_MulRedc
+            | exact ok_InvRing | exact ok_ChMul | exact ok_SatMul | exact ok_OvMul | exact ok_DivCeil
+            | exact ok_ChDiv | exact ok_ChRem | exact ok_NextMul | exact ok_ChNextMul | exact ok_InvMod
+            | exact ok_Lcm | exact ok_GcdExt | exact ok_ReduceMod | exact ok_SquareRedc
+            | exact ok_ChPow | exact ok_SatPow | exact ok_OvPow ].
   Qed.
 End Ops.
 
